@@ -378,3 +378,54 @@ def r_passthrough(ctx, resolver, funcs, names: tuple[str, ...], rule: str = 'R-P
             missing = sorted(want - set(bound))
             ctx.check(not missing, rule, fn, f'call of {callee.ref} passes {sorted(want)} on' + (f' (omitted: {missing} - the callee default replaces the value)' if missing else ''), call, callee=callee.ref)
     return n
+
+
+# --------------------------------------------------------------------------------------------------
+# R-LATEBIND
+# --------------------------------------------------------------------------------------------------
+IMMEDIATE_CONSUMERS = {'sorted', 'min', 'max', 'map', 'filter', 'sum', 'any', 'all', 'reduce', 'groupby', 'next', 'sort'}
+
+
+def r_latebind(ctx, funcs, rule: str = 'R-LATEBIND') -> int:
+    """A lambda / nested function created inside a loop or comprehension must not read the iteration variable as a free
+    variable when it outlives the iteration (stored, passed to a constructor, returned): python closures bind late, so
+    every such callable sees the *last* value.  Accepted: binding through a default argument, or immediate consumption
+    (sorted/min/max key, map/filter)."""
+    n = 0
+    for fn in funcs:
+        for node in core.walk_deep(fn.node):
+            if not isinstance(node, (ast.Lambda,) + core.FUNC):
+                continue
+            loopvars: set[str] = set()
+            for a in core.ancestors(node):
+                if a is fn.node:
+                    break
+                if isinstance(a, (ast.For, ast.AsyncFor)):
+                    loopvars |= core.names_in(a.target)
+                elif isinstance(a, (ast.ListComp, ast.SetComp, ast.GeneratorExp, ast.DictComp)):
+                    for g in a.generators:
+                        loopvars |= core.names_in(g.target)
+            if not loopvars:
+                continue
+            args = node.args
+            bound = {x.arg for x in list(args.posonlyargs) + list(args.args) + list(args.kwonlyargs)}
+            if args.vararg:
+                bound.add(args.vararg.arg)
+            if args.kwarg:
+                bound.add(args.kwarg.arg)
+            body = node.body if isinstance(node.body, list) else [node.body]
+            free = {x.id for b in body for x in ast.walk(b) if isinstance(x, ast.Name) and isinstance(x.ctx, ast.Load)} - bound
+            captured = sorted(free & loopvars)
+            if not captured:
+                continue
+            par = core.parent(node)
+            immediate = False
+            if isinstance(par, ast.keyword) and par.arg == 'key':
+                immediate = True
+            if isinstance(par, ast.Call) and core.call_tail(par) in IMMEDIATE_CONSUMERS:
+                immediate = True
+            if isinstance(par, ast.keyword) and isinstance(core.parent(par), ast.Call) and core.call_tail(core.parent(par)) in IMMEDIATE_CONSUMERS:
+                immediate = True
+            n += 1
+            ctx.check(immediate, rule, fn, f'callable created per iteration captures the loop variable(s) {captured} late: every instance sees the last value (bind with a default argument)', node, key=f'latebind:{",".join(captured)}:{core.stmt_key(core.enclosing_stmt(node))}')
+    return n
